@@ -28,6 +28,12 @@ def texts_for(rng, cfg, k):
         else:
             out.append(rng.choice(["", "a =", "GROUP = g", "a = (1,", "a = \x01", "x", "a = 1 END garbage (",
                                    "a = */", "a = b*/ c = 1", "a = half*/", "x = a/*b", "w = ok", "a = #x"]))
+    if rng.random() < 0.25:
+        # a call that records a missing value and then fails part-way, followed by one that succeeds
+        # (S12-C16: state reset only on the successful path)
+        out[0:0] = [rng.choice(["a =\nb = (1, 2\n", "GROUP = g\n  a =\n  b = {1,\nEND_GROUP\n", "x =\ny =\nz = \"open\n",
+                                "a =\r\nOBJECT = o\r\n  b = (1\r\nEND_OBJECT\r\n"]),
+                    rng.choice(["w = ok", "q =\nz = 1\n", "a = 1\nb =\nEND", "GROUP = g\n  k = 1\nEND_GROUP\nEND\n"])]
     return out
 
 
